@@ -69,11 +69,16 @@ def c01_jobs(tier):
         for start, depth in (("0", 4), ("-5", 3), ("3", 3)):
             jobs.append(dict(name="seq-start%s-d%d" % (start, depth), harness="c01_events",
                              opts=dict(depth=depth, start=start), bound_min=0, bound_max=0, deadline=200))
+        # handles up to 24 with never more than four events pending: every ordered triple of events that stay pending
+        jobs.append(dict(name="survivors-24", harness="c01_events", opts=dict(survivors=24, start="0"), bound_min=0, bound_max=0,
+                         deadline=300))
         # the same on an optimised build without sanitizers (what is shipped is -O3): arithmetic that a sanitizer
         # stops at is observed there through its consequences
         jobs.append(dict(name="seq-start0-d4-O3", harness="c01_events", cfg="rel3", opts=dict(depth=4, start="0"),
                          bound_min=0, bound_max=0, deadline=200))
     else:
+        jobs.append(dict(name="survivors-40", harness="c01_events", opts=dict(survivors=40, start="0"), bound_min=0, bound_max=0,
+                         deadline=1500))
         jobs.append(dict(name="seq-start0-d5-O3", harness="c01_events", cfg="rel3", opts=dict(depth=5, start="0"),
                          bound_min=0, bound_max=0, deadline=3000))
         for start, depth in (("0", 5), ("-5", 4), ("3", 4)):
@@ -265,6 +270,10 @@ def c04_jobs(tier):
     jobs.append(des("condition-cancel-p3", "notif", b, dl, procs=3, prios="1,0,0", budget=3, cond=1, res=1,
                     ops="hold0,hold1,hold2,tadd1,tadd2,tadd2u,cwait0,cwait1,csig,setx1,ccancel1,ccancel2,cremove1,int1,exit",
                     script0="hold1,ccancel1,ccancel2", script1="tadd2u,cwait0,hold2", script2="tadd2,cwait1,hold2"))
+    # timers of a suspended process cleared by somebody else while it waits for an event, a process or a resource
+    jobs.append(des("timers-cleared-by-others-p3", "notif", b, dl, procs=3, prios="0,0,1", budget=3, res=1,
+                    ops="hold0,hold1,hold2,tadd1,tadd2u,tclro0,tclro1,evsched2,waite0,waitp2,racq0,rrel0,int1,exit",
+                    script0="evsched2,tadd1,waite0", script1="tadd2u,waitp2,hold1", script2="hold0,tclro0,hold2"))
     # several processes waiting for the same event, which is cancelled / executes / is rescheduled by a third
     jobs.append(des("event-waiters-p3", "notif", b, dl, procs=3, prios="0,0,1", budget=3,
                     ops="hold0,hold1,tadd1,evsched1,evsched2,waite0,waite1,evcancel0,evcancel1,int1,int2,stop1,exit",
@@ -341,6 +350,15 @@ def c06_jobs(tier):
         # first, last or middle waiter: service order by priority, then arrival
         dict(name="waiters-7-17", harness="c10_ramps", opts=dict(mode="guardq", prop="c06"), bound_min=0, bound_max=0,
              deadline=300, crash_is_violation=True, recycle=200, run_timeout=60),
+        # a condition observing a resource: waiters woken by a FORWARDED signal, with an unsatisfied waiter at the head
+        des("condition-forwarded", "order", b, dl, procs=4, prios="0,0,0,2", budget=4, cond=1, res=1, subscribe="res",
+            ops="cwait3,cwait0,racq0,rrel0,hold0,hold1,hold2,setx1,int1,prio1.2,exit",
+            script0="racq0,hold2,hold1,rrel0", script1="hold1,cwait3,hold1", script2="hold2,cwait3,hold1",
+            script3="hold2,hold1,cwait0"),
+        des("condition-forwarded-csub", "order", b, dl, procs=4, prios="0,0,0,2", budget=4, cond=1, res=1, subscribe="csub",
+            ops="cwait3,cwait0,racq0,rrel0,hold0,hold1,hold2,setx1,exit",
+            script0="racq0,hold2,hold1,rrel0", script1="hold1,cwait3,hold1", script2="hold2,cwait3,hold1",
+            script3="hold2,hold1,cwait0"),
         # every priority assignment to 6 (7) waiters x every leaver x {cancel, timeout} x two late arrivals: service order
         dict(name="guardorder-6", harness="c10_ramps", opts=dict(mode="guardorder", prop="c06", n=6), bound_min=0, bound_max=0,
              deadline=600, crash_is_violation=True, recycle=2000, run_timeout=60),
